@@ -3,9 +3,9 @@
 package interpreter
 
 import (
-	"strconv"
 	"github.com/truora/minidyn/internal/nd"
 	"github.com/truora/minidyn/types"
+	"strconv"
 )
 
 const vTwo53 = int64(1) << 53
